@@ -67,6 +67,8 @@ def build(a):
             return ds.zip(other)
         return ds.key_zip(other)
     if op == 'map':
+        if a['f'] == 'bmap_inc':
+            return ds.batch_map(U.inc)
         return ds.map(U.MAPFNS[a['f']])
     if op == 'fmap':
         return ds.map(U.failing(a['p'], a['cls']))
